@@ -162,4 +162,16 @@ Example nested_hypotheses_hold :
   let x := e 0 1 2 in let y := e 3 4 5 in let z := e 6 7 8 in
   (conf sp x /\ conf sp y /\ conf sp z) /\
   wf (quads sp x y x) /\ wf (quads sp x x x) /\ wf (quads sp x y z) /\ wf (quads sp x x z).
-Proof. cbn. intuition lia. Qed.
+Proof.
+  cbn [conf confs quads quadss wf app].
+  repeat match goal with
+  | |- _ /\ _ => split
+  | |- True => exact I
+  | |- forall _, _ => intros
+  end;
+  repeat match goal with
+  | H : In _ _ |- _ => cbn in H
+  | H : _ \/ _ |- _ => destruct H as [H | H]; [subst |]
+  | H : False |- _ => contradiction
+  end; cbn; lia.
+Qed.
